@@ -318,7 +318,7 @@ def gen_operands(op, rng, types, pats):
             # position inside an ATOM of size n (what getitem makes of a physical axis); against a partner whose
             # dimension type is a sum / product it is a different index type (the library warns "index type
             # mismatch" and may miss a coincidence) -- outside the property's domain, so such conversions are undone
-            if not _onehot_types_ok(specs): specs[:] = orig
+            if not _onehot_types_ok(specs, orig): specs[:] = orig
         return specs
     if kind == "where":
         c, pool = partner(t, "bool", None, pool)
@@ -335,12 +335,21 @@ def gen_operands(op, rng, types, pats):
 def _is_onehot_type(t):
     return t[0] == "sum" and ("atom", 1) in [tuple(x) for x in t[1]]
 
-def _onehot_types_ok(specs):
+def _onehot_types_ok(specs, orig):
+    """after converting some operands' dimensions to flat one-hot dimensions: at every dimension that was
+    converted in some operand, every OTHER operand's (non-unit) dimension must be typed as an atom -- the only
+    type a flat one-hot dimension SumAxis(i, unit, n-i-1) is a position of.  (The first version of this guard
+    looked for an `atom 1` summand to recognise converted dimensions and so mistook a genuine sum type such as
+    1 + 1 + 4 for a one-hot one: a thorough-tier false alarm of `where`.)"""
     nd = max(len(sp["types"]) for sp in specs)
     for r in range(1, nd + 1):
-        ts = [sp["types"][-r] for sp in specs if len(sp["types"]) >= r and U.tsize(sp["types"][-r]) != 1]
-        hot = [t for t in ts if _is_onehot_type(t)]
-        if hot and any(t[0] != "atom" and not _is_onehot_type(t) for t in ts): return False
+        idx = [j for j in range(len(specs)) if len(specs[j]["types"]) >= r]
+        changed = [j for j in idx if len(orig[j]["types"]) < r or specs[j]["types"][-r] != orig[j]["types"][-r]]
+        if not changed: continue
+        for j in idx:
+            if j in changed: continue
+            t = specs[j]["types"][-r]
+            if U.tsize(t) != 1 and t[0] != "atom": return False
     return True
 
 def spec_from_pattern(ts, vax, rng, kind, default, nan):
